@@ -4,12 +4,15 @@ TB = ("Trusted base: pyvc's encoding of Python semantics (A-PY), annotated argum
       "z3/cvc5; per-property assumptions are listed in the evidence file.")
 
 CLAIMS = {
-    "C01": dict(category="proof", technique="function contracts + loop invariants on the real buffer/varint/data_received code, VCs from the AST discharged by z3 (cvc5 fallback)",
+    "C01": dict(category="proof", technique="function contracts + loop invariants on the real buffer/varint/data_received code, inductive lemmas over the framing spec (segmentation independence, encode/decode round trip); VCs from the AST discharged by z3 (cvc5 fallback)",
                 text="Every obligation of the contracts on _add_to_buffer, _remove_from_buffer, _read, _read_varuint and APIPlaintextFrameHelper.data_received "
                      "(post: packets delivered == all complete frames of old-buffer ++ chunk, in order, once; retained tail == exactly the incomplete remainder) is discharged "
-                     "for all buffers, chunks (bytes/bytearray/memoryview), payload sizes and varint widths. Segmentation independence over whole streams is the inductive consequence "
-                     "of the per-call postcondition; that last step (prefix-stability of the parse spec) is checked by a bounded stand-in only and is not counted as proved.",
-                note=TB + " process_packet is assumed not to touch the helper's buffer fields; bor/shl for symbolic shifts uninterpreted (A-BITS)."),
+                     "for all buffers, chunks (bytes/bytearray/memoryview), payload sizes and varint widths. On top of the per-call contract three families of lemmas are proved by induction "
+                     "(recursive ghost functions with decreases, each checked against its contract): (seg/stream) the frames delivered and the tail retained after n calls are those of the "
+                     "concatenated stream, for every cut of it into n chunks; (varint_rt/one_frame/frames_rt) the reader spec inverts api.proto's encoding plain_frames that the writer is proved "
+                     "against under C02; (wire_stream) the property as stated: k frames sent by the device, cut anyhow into n chunks, arrive as exactly those k (type, payload) pairs and nothing is retained.",
+                note=TB + " process_packet is assumed not to touch the helper's buffer fields; bor/shl for symbolic shifts are uninterpreted with arithmetic axiom instances (A-BITS); "
+                          "the run_msgs/run_view spec functions iterate the per-call postcondition, which holds for calls that do not hit a bad preamble (a bad preamble closes the connection: C04/C12)."),
     "C02": dict(category="proof", technique="function contracts + loop invariants, VCs from the AST discharged by z3",
                 text="_varuint_to_bytes == minimal base-128 encoding for all v >= 0; plaintext write_packets performs exactly one write of the concatenated "
                      "zero byte + varint length + varint type + payload frames for every packet list; _write_bytes writes exactly once.",
